@@ -1,5 +1,5 @@
 // C04: SignalEvent over two loops on two threads, driven in lock-step (engine H, fork per evaluation).
-// usage: harness <engine> <depth> <cfg 0..2> <lane A|B|C|Ci|D>
+// usage: harness <engine> <depth> <cfg 0..2> <lane A|B|C|Ci|D|E>
 //   cfg  = pre-subscription dispositions of (SIGUSR1, SIGUSR2): 0 (SIG_IGN, SIG_DFL)  1 (plain handler, SA_SIGINFO handler)  2 (SIG_DFL, plain handler);
 //          every signal has its OWN handler function, sa_mask and sa_flags, so a save/restore/invoke through the other signal's slot is visible.
 //   lane = A: enable/disable/destroy on e0..e4 + single deliveries raised on the controller thread
@@ -9,8 +9,10 @@
 //             and "deferred tasks are still queued on loop l", so tear-down -> (pass | no pass) -> subscribe again -> deliveries is explored
 //          D: initialise-again lane: e0 {USR1}, e3 {USR2}, e7 (created without initialize()): enable/disable on all three, destroy and addsig (= initialize again, adding the
 //             other signal through the accumulating overloads) on e0 and e7, on enabled or disabled events, incl. enable() before any initialize(); + single deliveries
+//          E: callback-script lane: e0, e1, e8 (loop 0): enable/disable + cbscript (one event's signal callback disables/enables other subscribers of its loop, see below) + single deliveries
 //          Ci: as C, but every enable/disable is issued from a runNext task inside a kOnce pass of its loop (ordinary in-loop callback)
-// DESIGN 1.7 reading: subscription changes are made between deliveries, never inside a signal callback (apart from the one-shot's own self-disable).
+// DESIGN 1.7 reading: subscription changes are made between deliveries, never inside a signal callback (apart from the one-shot's own self-disable) - except in lane E, which
+// makes the changes the library explicitly supports from a signal callback (disable / enable of events of the same loop; never destroy).
 #include "hist/hist.h"
 #include "probe.h"
 #include <tbox/event/loop.h>
@@ -38,9 +40,9 @@ extern "C" int eventfd(unsigned int cnt, int flags) { if (g_no_fd) { errno = EMF
 #endif
 using namespace tbox::event;
 
-enum K { ENABLE, DISABLE, DESTROY, RAISE, ADDSIG, ENABLE_NOFD, ADDBAD, SETSIG, REARM, SWAP, NK };
+enum K { ENABLE, DISABLE, DESTROY, RAISE, ADDSIG, ENABLE_NOFD, ADDBAD, SETSIG, REARM, SWAP, CBSCRIPT, NK };
 struct Op { int k, a; };
-static const char *kN[] = {"enable", "disable", "destroy", "raise", "addsig", "enable_nofd", "addbad", "setsig", "rearm", "swap"};
+static const char *kN[] = {"enable", "disable", "destroy", "raise", "addsig", "enable_nofd", "addbad", "setsig", "rearm", "swap", "cbscript"};
 // enable_nofd(e) = enable() while the process cannot get a new descriptor (pipe2/socketpair/eventfd fail with EMFILE around the call, see the seam below): on a loop that has no signal subscription the loop's
 //                  notification pipe cannot be created, so enable() must return false and NOTHING may change (dispositions are compared at once); otherwise it is a plain enable()
 // addbad(e)      = initialize(SIGSTOP, kPersist): the accumulated set now holds an uncatchable signal, every later enable() must fail as a whole and leave things as they were
@@ -50,11 +52,24 @@ static const char *kN[] = {"enable", "disable", "destroy", "raise", "addsig", "e
 static const int SWAP_TO[2] = {1, 0};
 static int g_gen_cap = 1;      // saturation of the tear-down / restore generation counters in lane C's state key (C04_GEN_CAP, 2 in the thorough tier)
 static const int NS = 4; static const int SIGS[NS] = {SIGUSR1, SIGUSR2, SIGKILL, SIGSTOP};
-static const int NE = 8;
+static const int NE = 9;
 // event -> (loop, signals bitmask, oneshot); e4 is a one-shot event on a two-signal set; e5 subscribes SIGKILL only (its enable() must fail);
 // e6 subscribes {SIGUSR1, SIGSTOP} (the uncatchable one comes second in the set; enable() must fail as a whole) and is only operated when the switch C04_MIXED_UNCATCHABLE_SET=1 is set (default off, see below)
 // e7 (loop 1) is created WITHOUT initialize(); lane D initialises it later with addsig(e7), possibly after enable(e7)
-static const int EV_LOOP[NE] = {0, 0, 1, 1, 0, 0, 0, 1}; static const int EV_SIGS[NE] = {1, 3, 1, 2, 3, 4, 9, 0}; static const bool EV_ONESHOT[NE] = {false, false, true, false, true, false, false, false};
+// e8 {USR1} loop 0: third persistent USR1 subscriber of loop 0 for lane E (callback scripts)
+static const int EV_LOOP[NE] = {0, 0, 1, 1, 0, 0, 0, 1, 0}; static const int EV_SIGS[NE] = {1, 3, 1, 2, 3, 4, 9, 0, 1}; static const bool EV_ONESHOT[NE] = {false, false, true, false, true, false, false, false, false};
+// Lane E, callback scripts (cbscript(eX:what), set at most once per history, X in the ring e0 -> e1 -> e8 -> e0, all persistent subscribers of USR1 on loop 0): every time eX's signal
+// callback runs it changes subscriptions of the SAME loop: disable the next / the previous event of the ring, disable both others, disable itself, or enable the next one.
+// (The subscriber set is ordered by address, so next+previous cover "the one right after me" whatever the allocation order.) The unchanged code copies the subscriber set before
+// dispatching for exactly this use; DESTROYING another event inside a signal callback is a documented FIXME of the library and is never generated.
+// Model: an event disabled (or enabled) by an earlier callback of the same delivery may or may not be called for THAT delivery (at most once); from the next delivery on everything is exact.
+enum CbWhat { CB_DIS_NEXT, CB_DIS_PREV, CB_DIS_OTHERS, CB_DIS_SELF, CB_EN_NEXT, CB_NWHAT };
+static const char *cbN[] = {"disable-next", "disable-prev", "disable-others", "disable-self", "enable-next"};
+static const int RING[3] = {0, 1, 8};
+static int ring_pos(int e) { return e == 0 ? 0 : e == 1 ? 1 : 2; }
+// targets of a script: bit mask over ring positions to disable, and the ring position to enable (-1 none)
+static void cb_targets(int who, int what, int &dis, int &en) { int p = ring_pos(who), nx = (p + 1) % 3, pv = (p + 2) % 3; dis = 0; en = -1;
+  switch (what) { case CB_DIS_NEXT: dis = 1 << nx; break; case CB_DIS_PREV: dis = 1 << pv; break; case CB_DIS_OTHERS: dis = (1 << nx) | (1 << pv); break; case CB_DIS_SELF: dis = 1 << p; break; case CB_EN_NEXT: en = nx; break; } }
 static bool set_fails(int mask) { return (mask & 12) != 0; }     // POSIX: sigaction(SIGKILL | SIGSTOP) = EINVAL, so enable() of a set containing one must fail as a whole
 // addsig(e) = "initialize again, adding one signal": the (int, Mode) and (initializer_list, Mode) overloads ACCUMULATE (as the library does; the std::set overload assigns and is
 // used at construction only). The added signal is the first of USR1, USR2 not yet in the event's set (USR2 again when both are there). Reading used by the model: an added signal
@@ -62,7 +77,7 @@ static bool set_fails(int mask) { return (mask & 12) != 0; }     // POSIX: sigac
 // for the whole accumulated set and disable()/destroy must leave every disposition as it was before the first subscription.
 static int add_bit(int want) { return !(want & 1) ? 1 : 2; }
 // which initialize() overload builds the event: 0 (int, Mode)  1 (initializer_list, Mode)  2 (std::set, Mode)
-static const int EV_INIT[NE] = {0, 1, 0, 0, 2, 0, 2, -1};     // -1: not initialised at construction
+static const int EV_INIT[NE] = {0, 1, 0, 0, 2, 0, 2, -1, 0};     // -1: not initialised at construction
 // (was a defect switch; the defect is repaired, so this is on by default; C04_MIXED_UNCATCHABLE_SET=0 turns it off) lane C also offers enable(e6)/destroy(e6).
 // Before the repair enable(e6) returned false but left SIGUSR1 subscribed for an event that reports isEnabled()==false; neither disable() nor the
 // destructor unsubscribes it, so the disposition of SIGUSR1 is never restored and a delivery after destroy(e6) calls into the freed event.
@@ -97,6 +112,7 @@ template <int I> static void sentinel_info(int signo, siginfo_t *si, void *uc) {
 
 // reference model: pure function of the history (also used by the menu)
 struct Model {
+  int cbWho = -1, cbWhat = 0;      // the callback script in force (lane E)
   bool alive[NE], en[NE], os[NE]; int want[NE], act[NE]; int gen[2], cyc[NS];      // os: one-shot (mode of the LAST initialize() wins)
        // want: set accumulated by initialize() calls; act: set in force = want at the last successful enable()
        // gen[l]: loop l has dropped its last subscriber at least once; cyc[s]: signal s has been installed and restored at least once
@@ -118,7 +134,11 @@ struct Model {
       case SETSIG: if (alive[o.a]) want[o.a] = 2; break;
       case DISABLE: en[o.a] = false; break;
       case DESTROY: alive[o.a] = false; en[o.a] = false; break;
-      case RAISE: { int mask = 0; for (int s : SCRIPTS[o.a].sigs) mask |= 1 << s; for (int e = 0; e < NE; e++) if (live(e) && os[e] && (act[e] & mask)) en[e] = false; } break;
+      case CBSCRIPT: cbWho = RING[o.a / CB_NWHAT]; cbWhat = o.a % CB_NWHAT; break;
+      case RAISE: { int mask = 0; for (int s : SCRIPTS[o.a].sigs) mask |= 1 << s; const bool fires = cbWho >= 0 && live(cbWho) && (act[cbWho] & mask);
+        for (int e = 0; e < NE; e++) if (live(e) && os[e] && (act[e] & mask)) en[e] = false;
+        if (fires) { int dis, enp; cb_targets(cbWho, cbWhat, dis, enp); for (int p = 0; p < 3; p++) if (dis & (1 << p)) en[RING[p]] = false;
+          if (enp >= 0 && alive[RING[enp]]) { en[RING[enp]] = true; act[RING[enp]] = want[RING[enp]]; } } } break;
     }
     for (int l = 0; l < 2; l++) if (bl[l] && !subL(l) && gen[l] < g_gen_cap) gen[l]++;
     for (int s = 0; s < NS; s++) if (bs[s] && !subS(s) && cyc[s] < g_gen_cap) cyc[s]++;
@@ -158,12 +178,14 @@ int main(int argc, char **argv) {
   std::string eng = argc > 1 ? argv[1] : "epoll"; size_t depth = argc > 2 ? atoi(argv[2]) : 5; int cfg = argc > 3 ? atoi(argv[3]) : 1; std::string lane = argc > 4 ? argv[4] : "A";
   if (cfg < 0 || cfg > 2) cfg = 1;
   g_gen_cap = (int)hx::env_int("C04_GEN_CAP", 1);
-  const bool laneB = lane[0] == 'B', laneC = lane[0] == 'C', laneD = lane[0] == 'D', inloop = lane == "Ci";
+  const bool laneB = lane[0] == 'B', laneC = lane[0] == 'C', laneD = lane[0] == 'D', laneE = lane[0] == 'E', inloop = lane == "Ci";
   hx::Explorer<Op> ex; ex.name = eng + "-cfg" + std::to_string(cfg) + "-lane" + lane; ex.deadline_s = hx::deadline_from_env(600);
   ex.fork_workers = (int)hx::env_int("VERIF_WORKERS", 4); ex.check_replay_determinism = true;
-  ex.show = [](const Op &o) { char b[48]; if (o.k == RAISE) snprintf(b, 48, "raise(%s)", SCRIPTS[o.a].name); else snprintf(b, 48, "%s(e%d)", kN[o.k], o.a); return std::string(b); };
+  ex.show = [](const Op &o) { char b[48]; if (o.k == CBSCRIPT) { snprintf(b, 48, "cbscript(e%d:%s)", RING[o.a / CB_NWHAT], cbN[o.a % CB_NWHAT]); return std::string(b); } if (o.k == RAISE) snprintf(b, 48, "raise(%s)", SCRIPTS[o.a].name); else snprintf(b, 48, "%s(e%d)", kN[o.k], o.a); return std::string(b); };
   ex.menu = [&](const std::vector<Op> &h) { std::vector<Op> m; Model md; for (auto &o : h) md.apply(o);
-    if (laneD) { const int evs[3] = {0, 3, 7}; for (int e : evs) { m.push_back({ENABLE, e}); if (add_signal_then_disable() || !md.pending_add(e)) { m.push_back({DISABLE, e}); if (e != 3) m.push_back({DESTROY, e}); } if (e != 3 && !(md.want[e] & 8)) m.push_back({ADDSIG, e}); }
+    if (laneE) { for (int p = 0; p < 3; p++) { m.push_back({ENABLE, RING[p]}); m.push_back({DISABLE, RING[p]}); }
+      if (md.cbWho < 0) for (int i = 0; i < 3 * CB_NWHAT; i++) m.push_back({CBSCRIPT, i}); }
+    else if (laneD) { const int evs[3] = {0, 3, 7}; for (int e : evs) { m.push_back({ENABLE, e}); if (add_signal_then_disable() || !md.pending_add(e)) { m.push_back({DISABLE, e}); if (e != 3) m.push_back({DESTROY, e}); } if (e != 3 && !(md.want[e] & 8)) m.push_back({ADDSIG, e}); }
       if (md.alive[0] && !(md.want[0] & 8) && !md.pending_add(0)) m.push_back({ADDBAD, 0}); if (md.alive[0] && !md.en[0]) m.push_back({SETSIG, 0}); }
     else if (inloop) { for (int e = 0; e < 3; e++) { m.push_back({ENABLE, e}); m.push_back({DISABLE, e}); if (e != 1) m.push_back({REARM, e}); } m.push_back({ENABLE, 5}); m.push_back({SWAP, 0}); m.push_back({DESTROY, 0}); }
     else if (laneC) { for (int e = 0; e < 3; e++) { m.push_back({ENABLE, e}); m.push_back({DISABLE, e}); } m.push_back({ENABLE, 5}); for (int e = 0; e < 3; e += 2) if (md.alive[e] && md.nofd_fails(e)) m.push_back({ENABLE_NOFD, e});      // only where it differs from a plain enable(): the loop's pipe would have to be created
@@ -185,8 +207,8 @@ int main(int argc, char **argv) {
         case K_INFO: sa.sa_sigaction = i == 0 ? sentinel_info<0> : sentinel_info<1>; sa.sa_flags |= SA_SIGINFO; break; }
       sigaction(SIGS[i], &sa, nullptr); sigaction(SIGS[i], nullptr, &pre[i]); }
     Worker w[2]; w[0].start(eng); w[1].start(eng); w[0].exec([] {}); w[1].exec([] {});
-    SignalEvent *ev[NE]; Model md; bool snap[NE], snapOs[NE]; int snapAct[NE]; int calls[NE][NS]; std::string cbviol; std::mutex cbm;
-    for (int e = 0; e < NE; e++) { snap[e] = false; snapOs[e] = false; snapAct[e] = 0; for (int s = 0; s < NS; s++) calls[e][s] = 0; Worker &wk = w[EV_LOOP[e]];
+    SignalEvent *ev[NE]; Model md; bool snap[NE], snapOs[NE], lenient[NE]; int snapAct[NE]; int calls[NE][NS]; std::string cbviol; std::mutex cbm;
+    for (int e = 0; e < NE; e++) { snap[e] = false; snapOs[e] = false; lenient[e] = false; snapAct[e] = 0; for (int s = 0; s < NS; s++) calls[e][s] = 0; Worker &wk = w[EV_LOOP[e]];
       wk.exec([&, e] { ev[e] = wk.loop->newSignalEvent("e"); Event::Mode mode = EV_ONESHOT[e] ? Event::Mode::kOneshot : Event::Mode::kPersist;
         if (EV_INIT[e] < 0) { }
         else if (EV_INIT[e] == 0) { int one = -1; for (int i = 0; i < NS; i++) if (EV_SIGS[e] == (1 << i)) one = SIGS[i]; ev[e]->initialize(one, mode); }
@@ -194,10 +216,13 @@ int main(int argc, char **argv) {
         else { std::set<int> ss; for (int i = 0; i < NS; i++) if (EV_SIGS[e] & (1 << i)) ss.insert(SIGS[i]); ev[e]->initialize(ss, mode); }
         ev[e]->setCallback([&, e](int signo) { std::lock_guard<std::mutex> g(cbm);
           if (std::this_thread::get_id() != w[EV_LOOP[e]].tid) cbviol = "callback-on-wrong-thread e" + std::to_string(e);
-          if (!snap[e]) cbviol = "callback-on-disabled-or-destroyed-event e" + std::to_string(e);      // snap = alive && enabled when the deliveries were made
+          if (!snap[e] && !lenient[e]) cbviol = "callback-on-disabled-or-destroyed-event e" + std::to_string(e);      // snap = alive && enabled when the deliveries were made
           int si = -1; for (int i = 0; i < NS; i++) if (signo == SIGS[i]) si = i;
-          if (si < 0 || !(snapAct[e] & (1 << si))) { cbviol = "callback-with-unsubscribed-signal e" + std::to_string(e); return; }
+          if (si < 0 || !((lenient[e] ? md.want[e] : snapAct[e]) & (1 << si))) { cbviol = "callback-with-unsubscribed-signal e" + std::to_string(e); return; }
           calls[e][si]++;
+          if (e == md.cbWho) { int dis, enp; cb_targets(e, md.cbWhat, dis, enp);      // the callback script: change subscriptions of this loop from inside the signal callback
+            for (int p = 0; p < 3; p++) if ((dis & (1 << p)) && md.alive[RING[p]]) ev[RING[p]]->disable();
+            if (enp >= 0 && md.alive[RING[enp]] && !ev[RING[enp]]->enable()) cbviol = "enable-returned-false"; }
           if (snapOs[e] && ev[e]->isEnabled()) cbviol = "oneshot-still-enabled-in-callback"; }); }); }
     auto issue = [&](int e, std::function<void()> f) {      // run a subscription change on the event's loop thread: directly, or from a runNext task inside a kOnce pass
       Worker &wk = w[EV_LOOP[e]];
@@ -223,11 +248,15 @@ int main(int argc, char **argv) {
           bool sub[2] = {md.subS(0), md.subS(1)};
           for (int e = 0; e < NE; e++) { snap[e] = md.live(e); snapOs[e] = md.os[e]; snapAct[e] = md.act[e]; for (int s = 0; s < NS; s++) calls[e][s] = 0; }
           for (int i = 0; i < 2; i++) g_calls[i] = g_bad[i] = 0;
+          for (int e = 0; e < NE; e++) lenient[e] = false;
+          if (md.cbWho >= 0 && snap[md.cbWho] && total == 1 && (snapAct[md.cbWho] & (1 << sc.sigs[0]))) { int dis, enp; cb_targets(md.cbWho, md.cbWhat, dis, enp);      // the script will run: its targets may or may not be called for this delivery
+            for (int p = 0; p < 3; p++) if ((dis & (1 << p)) && RING[p] != md.cbWho) lenient[RING[p]] = true; if (enp >= 0 && !snap[RING[enp]]) lenient[RING[enp]] = true; }
           for (int s : sc.sigs) { if (sc.where < 0) raise(SIGS[s]);            // delivered to this (controller) thread before raise() returns
             else w[sc.where].exec([&] { raise(SIGS[s]); }); }                 // delivered to the loop's own thread (must not be left blocked there)
           for (int l = 0; l < 2; l++) w[l].exec([&, l] { w[l].loop->runNext([] {}); w[l].loop->runLoop(Loop::Mode::kOnce); });
           std::string tail = total == 1 ? "" : "-after-" + std::to_string(total) + "-deliveries-before-one-pass";
           for (int e = 0; e < NE && viol.empty(); e++) {
+            if (lenient[e]) { int got = calls[e][0] + calls[e][1] + calls[e][2] + calls[e][3]; if (got > 1) viol = "event-changed-by-a-callback-got-" + std::to_string(got) + "-callbacks-for-one-delivery e" + std::to_string(e); continue; }
             if (!snap[e]) { if (calls[e][0] + calls[e][1] + calls[e][2] + calls[e][3]) viol = "non-subscriber-got-a-callback e" + std::to_string(e); continue; }
             if (snapOs[e]) { int want = 0, got = 0; for (int s = 0; s < NS; s++) if (snapAct[e] & (1 << s)) { if (nd[s]) want = 1; got += calls[e][s]; if (calls[e][s] && !nd[s]) viol = "callback-for-a-signal-that-was-not-delivered e" + std::to_string(e); }
               if (viol.empty() && got != want) viol = (got > 1 ? "oneshot-fired-" + std::to_string(got) + "-times" : "enabled-subscriber-got-" + std::to_string(got) + "-callbacks") + tail + " e" + std::to_string(e); }
@@ -244,6 +273,7 @@ int main(int argc, char **argv) {
     }
     // canonical state: model (incl. saturating teardown / restore generation counters, so that re-subscription after a teardown is explored) + the implementation's bookkeeping
     std::string c; for (int e = 0; e < NE; e++) { c += md.alive[e] ? (md.en[e] ? 'E' : 'd') : 'x'; }
+    if (md.cbWho >= 0) c += "|cb" + std::to_string(md.cbWho) + ":" + std::to_string(md.cbWhat);
     c += "|w"; for (int e = 0; e < NE; e++) if (md.want[e] != EV_SIGS[e] || md.act[e] != EV_SIGS[e]) c += std::to_string(e) + ":" + std::to_string(md.want[e]) + "/" + std::to_string(md.act[e]) + ",";
     for (int e = 0; e < NE; e++) if (md.os[e] != EV_ONESHOT[e]) c += "o" + std::to_string(e);      // accumulated / in-force sets where they differ from the construction-time set
     c += "|s"; for (int e = 0; e < NE; e++) if (md.alive[e]) { auto *im = static_cast<SignalEventImpl *>(ev[e]); c += key_sigset(*im, 0) + (VF_GET(is_inited_, *im, true) ? "i" : "u"); }
@@ -262,7 +292,7 @@ int main(int argc, char **argv) {
   if (argc > 5) { g_replay_keep_going = hx::env_int("C04_REPLAY_KEEP_GOING", 0) == 1;
          // replay one history given as text, e.g. "enable(e0) disable(e0) enable(e0) raise(USR1)"; prints the canonical state and the violation (if any)
     std::vector<Op> h; std::string t; std::istringstream is(argv[5]);
-    while (is >> t) { bool ok = false; for (int k = 0; k < NK && !ok; k++) if (k != RAISE) for (int e = 0; e < NE && !ok; e++) if (t == ex.show({k, e})) { h.push_back({k, e}); ok = true; }
+    while (is >> t) { bool ok = false; for (int k = 0; k < NK && !ok; k++) if (k != RAISE) for (int e = 0; e < (k == CBSCRIPT ? 3 * CB_NWHAT : NE) && !ok; e++) if (t == ex.show({k, e})) { h.push_back({k, e}); ok = true; }
       for (int i = 0; i < (int)SCRIPTS.size() && !ok; i++) if (t == ex.show({RAISE, i})) { h.push_back({RAISE, i}); ok = true; }
       if (!ok) { printf("@INFO cannot parse op '%s'\n", t.c_str()); return 0; } }
     std::string v, c = ex.run(h, v); printf("@INFO replay %s: %s => %s  viol=[%s]\n", ex.name.c_str(), ex.hist_str(h).c_str(), c.c_str(), v.c_str()); return 0; }
